@@ -14,10 +14,16 @@ import (
 	"syscall"
 )
 
-const (
-	generatedSuffix = ".gr.go"
-	manifestName    = "go-restli-manifest.gr.json"
-)
+const generatedSuffix = ".gr.go"
+
+// the file in which the generator records what it was run on: go-restli-manifest.gr.json in the v2 module,
+// parsed-specs.gr.json in the root module (GENSIM_MANIFEST_NAME)
+var manifestName = func() string {
+	if n := os.Getenv("GENSIM_MANIFEST_NAME"); n != "" {
+		return n
+	}
+	return "go-restli-manifest.gr.json"
+}()
 
 var (
 	FailAt   = -1 // ordinal (1-based) of the call to disturb
@@ -263,8 +269,8 @@ func CreateTemp(dir, pattern string) (*os.File, error) {
 	return f, err
 }
 func IoutilTempFile(dir, pattern string) (*os.File, error) { return CreateTemp(dir, pattern) }
-func MkdirTemp(dir, pattern string) (string, error)     { return os.MkdirTemp(dir, pattern) }
-func IoutilTempDir(dir, pattern string) (string, error) { return os.MkdirTemp(dir, pattern) }
+func MkdirTemp(dir, pattern string) (string, error)        { return os.MkdirTemp(dir, pattern) }
+func IoutilTempDir(dir, pattern string) (string, error)    { return os.MkdirTemp(dir, pattern) }
 
 func ReadDir(name string) ([]os.DirEntry, error) {
 	if err := step("readdir", name, false, nil); err != nil {
